@@ -3,8 +3,7 @@ Model of `tdigest::TDigest`, written once over an arbitrary carrier `α` with th
 order operations the code uses (individual instance arguments, so that the same definitions run
 at `Float` in the driver and are reasoned about over any linearly ordered field in the proofs).
 `min`/`max` are `Option α` (`none` = the code's ±infinity of an empty digest).
-`none` results of operations = the real code panics (assertions; `debug_assert!`s of `interpolate`
-are live because the baseline runs debug builds).
+`none` results of operations = the real code panics (assertions, index underflow).
 -/
 namespace Pds.TDigest
 
@@ -81,12 +80,14 @@ def insertWeighted (sf : ScaleFn α) (s : St α) (x w : α) : Option (St α) :=
     some (if s.backlog.length > s.maxBacklog then merge sf s else s)
   else some s
 
-/-- `interpolate` with its two `debug_assert!`s -/
-def interpolate (a b t : α) : Option α :=
-  if 0 ≤ t ∧ t ≤ 1 ∧ a ≤ b then some (t * b + (1 - t) * a) else none
+/-- `interpolate`: `t` is clamped into `[0, 1]` (`t.max(0.).min(1.)`) -/
+def interpolate (a b t : α) : α :=
+  let t := if t < 0 then 0 else t
+  let t := if 1 < t then 1 else t
+  t * b + (1 - t) * a
 
 /-- the centroid loop of `quantile`: `some r` = returned from inside the loop, `none` = fell through
-(right tail); the inner `Option` is the `interpolate`/`i > 0` assertion outcome -/
+(right tail); the inner `Option` is `none` when the `i > 0` assertion / index underflow fires -/
 def quantileLoop (limit : α) : List (Centroid α) → Option (Centroid α) → α → Option (Option α) × α
   | [], _, cum => (none, cum)
   | c :: rest, prev, cum =>
@@ -96,7 +97,7 @@ def quantileLoop (limit : α) : List (Centroid α) → Option (Centroid α) → 
       | some cl =>
         let cum' := cum - half * cl.count
         let delta := half * (cl.count + c.count)
-        (some (interpolate cl.mean c.mean ((limit - cum') / delta)), cum)
+        (some (some (interpolate cl.mean c.mean ((limit - cum') / delta))), cum)
     else quantileLoop limit rest (some c) (cum + c.count)
 
 inductive QRes (α : Type) where
@@ -112,9 +113,7 @@ def quantileInner (s : St α) (q : α) : QRes α :=
     let total := totalCount s.centroids
     let limit := total * q
     if limit ≤ c0.count * half then
-      match interpolate mn c0.mean (limit / (half * c0.count)) with
-      | some v => .val v
-      | none => .panic
+      .val (interpolate mn c0.mean (limit / (half * c0.count)))
     else
       match quantileLoop limit s.centroids none 0 with
       | (some (some v), _) => .val v
@@ -125,20 +124,18 @@ def quantileInner (s : St α) (q : α) : QRes α :=
         | some cl =>
           let cum' := cum - half * cl.count
           let delta := half * cl.count
-          match interpolate cl.mean mx ((limit - cum') / delta) with
-          | some v => .val v
-          | none => .panic
+          .val (interpolate cl.mean mx ((limit - cum') / delta))
   | _ :: _, _, _ => .panic   -- unreachable: centroids non-empty implies min/max set
 
 /-- the centroid loop of `cdf` -/
-def cdfLoop (x total : α) : List (Centroid α) → α → α → α → Option (Option α) × α × α
+def cdfLoop (x total : α) : List (Centroid α) → α → α → α → Option α × α × α
   | [], _, lastMean, lastCum => (none, lastMean, lastCum)
   | c :: rest, cum, lastMean, lastCum =>
     let currentCum := cum + half * c.count
     if x < c.mean then
       let delta := c.mean - lastMean
       let t := (x - lastMean) / delta
-      ((interpolate lastCum currentCum t).map (· / total) |> some, lastMean, lastCum)
+      (some (interpolate lastCum currentCum t / total), lastMean, lastCum)
     else cdfLoop x total rest (cum + c.count) c.mean currentCum
 
 /-- `TDigestInner::cdf` on a merged digest; `none` = assertion panic -/
@@ -149,12 +146,12 @@ def cdfInner (s : St α) (x : α) : Option α :=
     if x < mn then some 0 else
     let total := totalCount s.centroids
     match cdfLoop x total s.centroids 0 mn 0 with
-    | (some r, _, _) => r
+    | (some r, _, _) => some r
     | (none, lastMean, lastCum) =>
       if x < mx then
         let delta := mx - lastMean
         let t := (x - lastMean) / delta
-        (interpolate lastCum total t).map (· / total)
+        some (interpolate lastCum total t / total)
       else some 1
   | _ :: _, _, _ => none
 
